@@ -79,9 +79,15 @@ c.ensure("ascending", lambda cx, result, self, items: z3.And(ascending(result, s
 c.ensure("eq: the operands themselves", lambda cx, result, self, items: z3.Implies(_op(cx, self) == "eq", z3.And(
     S.length(result) == S.length(items), S.forall(0, S.length(items), lambda i: S.at(result, i) == S.at(items, i)))))
 
+# instantiation guidance only: NAMED(p) is true of every p (ghost axiom below, a definitional extension); the invariant's quantifier carries it as its pattern, and a
+# hint `NAMED(port)` puts the one term into the context at which the invariant has to be read before `items.remove(port)`
+NAMED = z3.Function("port_named", z3.IntSort(), z3.BoolSort())
+
+
 # inverse: ports is the exact ascending representation of P(op, i0) for ghost operands i0
 d = contract("cisco_acl.port.Port._ports_to_items", dict(self=TObj("Port"), ports=TList(TInt), i0=TList(TInt)), TList(TInt),
              props=("C08",), note="i0 is a ghost parameter (the operands whose port list is written back)")
+d.ghost["axioms"] = [z3.ForAll([z3.Int("p!nm")], NAMED(z3.Int("p!nm")))]
 d.require("valid", lambda cx, self, ports, i0: valid(_op(cx, self), i0))
 d.require("ports=P(op,i0)", lambda cx, self, ports, i0: z3.And(
     ascending(ports, strict=False), z3.Implies(_op(cx, self) != "eq", ascending(ports)),
@@ -95,7 +101,20 @@ d.ensure("text", lambda cx, result, self, ports, i0: z3.Implies(_op(cx, self) !=
     S.length(result) == S.length(i0), S.forall(0, S.length(i0), lambda i: S.at(result, i) == S.at(i0, i)))))
 
 
-d.ensure("valid operands", lambda cx, result, self, ports, i0: valid(_op(cx, self), result))
+def _nonempty_hint(cx, result, v, self, ports, i0):
+    """neq: the first excluded port is none of the written-back ports, so it is still in the list (the witness for `at least one operand`)"""
+    return z3.Implies(_op(cx, self) == "neq", z3.And(z3.Not(_mem(ports, S.at(i0, 0))), _mem(result, S.at(i0, 0))))
+
+
+_nonempty_hint.for_clauses = (1,)
+
+
+def _named_hint(cx, result, v, self, ports, i0):
+    """the terms at which the loop invariant is read after the loop: the first excluded port and every element of the result"""
+    return z3.And(NAMED(S.at(i0, 0)), S.forall(0, S.length(result), lambda i: NAMED(S.at(result, i))))
+
+
+d.ensure("valid operands", lambda cx, result, self, ports, i0: valid(_op(cx, self), result), hints=[_named_hint, _nonempty_hint])
 
 
 def _gone(ports, k, p):
@@ -107,12 +126,15 @@ def _gone(ports, k, p):
 def _inv_remove(cx, k, v):
     p = z3.Int("p!inv")
     return z3.And(ascending(v.items), S.length(v.items) == ALL - k,
-                  z3.ForAll([p], _mem(v.items, p) == z3.And(1 <= p, p <= ALL, z3.Not(_gone(v.ports, k, p)))))
+                  z3.ForAll([p], _mem(v.items, p) == z3.And(1 <= p, p <= ALL, z3.Not(_gone(v.ports, k, p))), patterns=[NAMED(p)]))
+
+
 
 
 d.ghost["asserts"] = {"items.remove(port)": [
     lambda cx, v: z3.And(1 <= S._t(v.port), S._t(v.port) <= ALL),
     lambda cx, v: z3.Not(_gone(v.ports, v.__getattr__("__loop_k__"), S._t(v.port))),
+    lambda cx, v: NAMED(S._t(v.port)),
     lambda cx, v: _mem(v.items, S._t(v.port)),
 ]}
 d.loop(0, _inv_remove, hints=[
